@@ -10,7 +10,7 @@ CONSTANTS
   PREC = {}
   MAXFULL = {}
   SOLVER = {}
-  SCALES = {"unit"}
+  SCALES = {"unit", "small"}
   SYSCLS = {}
 INVARIANT WellTyped
 CHECK_DEADLOCK FALSE
